@@ -12,9 +12,13 @@ MANIFEST = {
     "technique": "Rocq proof over the Factory/Resolve model + vm_compute correspondence on generated wiring scenarios",
 }
 
-PROFILES = [(Profile(p_wrap=0.0, n_procs=(0, 2), p_qual=0.7, p_primary=0.3, p_pointqual=0.6, p_optional=0.4, p_extra_instance=0.5, p_valid=0.6, fields=(1, 4)), 600, 6000)]
+PROFILES = [(Profile(p_wrap=0.0, n_procs=(0, 2), p_qual=0.7, p_primary=0.3, p_pointqual=0.6, p_optional=0.4, p_extra_instance=0.5, p_valid=0.6, fields=(1, 4),
+                     p_qual_api=0.5), 600, 6000)]
 
-RULE = 'populations with arbitrary qualifier/primary/naming attributes, qualifier sets of size 1-2 incl. the empty qualifier, optional fields without candidates placed before others; non-trivial = a point with a qualifier set or a single point with >= 2 providers'
+RULE = ('populations with arbitrary qualifier/primary/naming attributes, qualifier sets of size 1-2 incl. the empty qualifier (written in the tag, '
+        'or - in scenarios with a PriorityOrdered user post-processor, for half of the qualified points - added by that processor through '
+        'Property.AddArg("qualifier", ...) to a tag that declares none), optional fields without candidates placed before others; '
+        'non-trivial = a point with a qualifier set or a single point with >= 2 providers')
 
 
 def run(ctx):
